@@ -2,7 +2,9 @@ package props
 
 import (
 	"bytes"
+
 	"fmt"
+	"github.com/robfig/soy/ast"
 	"reflect"
 	"strings"
 	"time"
@@ -223,6 +225,22 @@ func statsOf(p *ref.Program) progStats {
 	return st
 }
 
+// hasPluralMsg: some message of the bundle has a {plural} (the identity bundle renders those by the
+// bundle's own plural rule, not by the source's cases).
+func hasPluralMsg(cb *compiled) bool {
+	found := false
+	for _, t := range cb.reg.Templates {
+		collectMsgs(t.Node, func(m *ast.MsgNode) {
+			for _, ch := range m.Body.Children() {
+				if _, isPl := ch.(*ast.MsgPluralNode); isPl {
+					found = true
+				}
+			}
+		})
+	}
+	return found
+}
+
 // checkProgram is the differential between the reference interpreter and the
 // Go renderer, shared by C01 and C02 (they differ in generator profile and in
 // the non-triviality rule).
@@ -263,6 +281,23 @@ func checkProgram(id string, c gen.ProgCase) (Verdict, ref.Result, progStats) {
 		}
 		if ref.CanonRefs(rr.out) != ref.CanonRefs(want.Out) {
 			return bad(true, "output differs\n got  %q\n want %q\n%s data=%v", rr.out, want.Out, showSources(names, srcs), c.Data), want, st
+		}
+		// the same render through a bundle of (marked) identity translations: the marks aside, the same text
+		if st.msgs > 0 && !strings.ContainsAny(strings.Join(srcs, "")+fmt.Sprint(c.Data, c.IJ), "«»") && !hasPluralMsg(cb) {
+			var buf bytes.Buffer
+			var berr error
+			if p := catch(func() {
+				rd := cb.tofu.NewRenderer(c.Entry).WithMessages(identityBundle(cb))
+				if c.HasIJ {
+					rd.Inject(toDataMap(c.IJ))
+				}
+				berr = rd.Execute(&buf, toDataMap(c.Data))
+			}); p != nil || berr != nil {
+				return bad(true, "render with an identity message bundle failed: %v %v\n%s", p, berr, showSources(names, srcs)), want, st
+			}
+			if marked := ref.RenderMarked(&c.Prog, c.Entry, c.Data, c.IJ, c.HasIJ); marked.Status == ref.OK && ref.CanonRefs(buf.String()) != ref.CanonRefs(marked.Out) {
+				return bad(true, "output through a message bundle of marked identity translations differs\n got  %q\n want %q\n%s data=%v", buf.String(), marked.Out, showSources(names, srcs), c.Data), want, st
+			}
 		}
 	case ref.Valueless:
 		if rr.err == nil {
